@@ -201,7 +201,10 @@ def residual_map_with_mask_from(
         The model data used to fit the data.
     """
     return np.subtract(
-        data, model_data, out=np.zeros_like(data), where=np.asarray(mask) == 0
+        data,
+        model_data,
+        out=np.zeros_like(data, dtype=np.result_type(data, model_data)),
+        where=np.asarray(mask) == 0,
     )
 
 
@@ -228,7 +231,9 @@ def normalized_residual_map_with_mask_from(
     return np.divide(
         residual_map,
         noise_map,
-        out=np.zeros_like(residual_map),
+        out=np.zeros_like(
+            residual_map, dtype=np.result_type(residual_map, noise_map, float)
+        ),
         where=np.asarray(mask) == 0,
     )
 
@@ -257,7 +262,9 @@ def chi_squared_map_with_mask_from(
         np.divide(
             residual_map,
             noise_map,
-            out=np.zeros_like(residual_map),
+            out=np.zeros_like(
+                residual_map, dtype=np.result_type(residual_map, noise_map, float)
+            ),
             where=np.asarray(mask) == 0,
         )
     )
@@ -448,7 +455,11 @@ def residual_flux_fraction_map_from(
     data
         The data of the dataset.
     """
-    return np.divide(residual_map, data, out=np.zeros_like(residual_map))
+    return np.divide(
+        residual_map,
+        data,
+        out=np.zeros_like(residual_map, dtype=np.result_type(residual_map, data, float)),
+    )
 
 
 @to_new_array
@@ -474,6 +485,6 @@ def residual_flux_fraction_map_with_mask_from(
     return np.divide(
         residual_map,
         data,
-        out=np.zeros_like(residual_map),
+        out=np.zeros_like(residual_map, dtype=np.result_type(residual_map, data, float)),
         where=np.asarray(mask) == 0,
     )
